@@ -275,11 +275,12 @@ type c40World struct {
 	exclClass         string
 	lastIdx           common.Range[uint64] // IndexedBlocks as last sampled by indexed()
 	lastIdxOK         bool
-	noBranchSwitch    bool   // prepare() must not draw a switch back to a remembered branch (see there)
-	everLimited       bool   // some indexer instance of this scenario ran with a history limit
-	revertedSinceIdle bool   // a head switch removed canonical blocks since the indexer was last known idle
-	release           func() // non-nil while the harness withholds an indexer step (see valve)
-	everIdx           bool   // indexing was enabled and waited for at least once
+	firsts            map[uint64]bool // every non-zero first indexed block sampled in this scenario
+	noBranchSwitch    bool            // prepare() must not draw a switch back to a remembered branch (see there)
+	everLimited       bool            // some indexer instance of this scenario ran with a history limit
+	revertedSinceIdle bool            // a head switch removed canonical blocks since the indexer was last known idle
+	release           func()          // non-nil while the harness withholds an indexer step (see valve)
+	everIdx           bool            // indexing was enabled and waited for at least once
 }
 
 func newC40World(t *testing.T, rt *rapid.T) *c40World {
@@ -491,6 +492,12 @@ func (w *c40World) indexed() (common.Range[uint64], bool) {
 		w.t.Fatalf("VERIF-INCONCLUSIVE C40: SyncLogIndex did not answer within %v: %v", c40QueryBound, err)
 	}
 	w.lastIdx, w.lastIdxOK = sr.IndexedBlocks, sr.IndexedView != nil
+	if sr.IndexedView != nil && !sr.IndexedBlocks.IsEmpty() && sr.IndexedBlocks.First() > 0 {
+		if w.firsts == nil {
+			w.firsts = map[uint64]bool{}
+		}
+		w.firsts[sr.IndexedBlocks.First()] = true
+	}
 	if sr.IndexedView != nil {
 		w.tracef("index covers %v (view head %d), valid %v", sr.IndexedBlocks, sr.IndexedView.HeadNumber(), sr.ValidBlocks)
 	} else {
@@ -800,29 +807,42 @@ func (w *c40World) knownTailPartial(q *c40Query, got []*types.Log, want []c40Exp
 	if !vs.Known("TestVerifC40Queries", c40ClassTailPartial) || !w.everLimited || w.disabled || q.byHash || len(got) >= len(want) {
 		return false
 	}
-	// got must be want minus a run of logs of one block
+	// got must be want minus one contiguous run of logs
 	i := 0
 	for i < len(got) && got[i].BlockHash == want[i].b.hash && got[i].Index == want[i].l.idx {
 		i++
 	}
 	miss := len(want) - len(got)
-	blk := want[i].b
-	for k := i; k < i+miss; k++ {
-		if want[k].b != blk {
-			return false
-		}
-	}
 	if c40Diff(got[i:], want[i+miss:]) != "" {
 		return false
 	}
-	// the first indexed block as sampled most recently before the query (the head may have moved and
-	// the tail been re-indexed since) or as it is now
-	prev, prevOK := w.lastIdx, w.lastIdxOK
+	lo, hi := want[i].b.num, want[i+miss-1].b.num
+	// The lowered blocks.first F can lie one or several blocks below the first really indexed log
+	// value (checkRevertRange/getTempRange SetAfterLast(lastBlock) on a range whose first is above
+	// lastBlock): every log from block F up to the first rendered map is lost, i.e. the run starts with
+	// the first expected log at or above F and spans a few blocks of the tail epoch. F is the first
+	// indexed block of some index state sampled in this scenario (defect manifest), or that minus one
+	// (the straddling block the state still excluded), or lies at/below the current first indexed
+	// block (the tail may have been re-indexed since, which heals the state).
+	const span = 12
+	fits := func(f uint64) bool {
+		return f > 0 && f <= lo && hi-f <= span && (i == 0 || want[i-1].b.num < f)
+	}
 	idx, ok := w.indexed()
-	if prevOK && !prev.IsEmpty() && prev.First() > 0 && blk.num == prev.First() {
+	if ok && !idx.IsEmpty() && idx.First() > 0 && lo <= idx.First() && hi <= idx.First() {
 		return true
 	}
-	return ok && !idx.IsEmpty() && blk.num <= idx.First() && idx.First() > 0
+	cands := make([]uint64, 0, 2*len(w.firsts))
+	for f := range w.firsts {
+		cands = append(cands, f, f-1)
+	}
+	slices.Sort(cands) // map order must not matter
+	for _, f := range cands {
+		if fits(f) {
+			return true
+		}
+	}
+	return false
 }
 
 // judge compares an answer against the candidate chain views (one unless the head
@@ -1132,7 +1152,7 @@ func c40Scenario(t *testing.T, rt *rapid.T, st *vs.S) {
 	init := w.generate(nil, rapid.IntRange(10, maxInit).Draw(rt, "initial"), rapid.Uint64().Draw(rt, "seed"), w.drawDensity())
 	w.commit(append(slices.Clone(w.canon), init...), "initial")
 
-	drawHistory := func() uint64 {
+	drawHistoryRaw := func() uint64 {
 		n := len(w.canon)
 		switch rapid.IntRange(0, 9).Draw(rt, "historyKind") {
 		case 0, 1, 2, 3:
@@ -1144,6 +1164,21 @@ func c40Scenario(t *testing.T, rt *rapid.T, st *vs.S) {
 		default:
 			return uint64(n + rapid.IntRange(0, 50).Draw(rt, "history"))
 		}
+	}
+	// While the known finding c40ClassTailPartial is listed, the trigger is avoided by construction
+	// in this unit: a history limit that could ever unindex a tail epoch is replaced by one that
+	// cannot (larger than any chain the scenario can build), because the damaged tail (blocks
+	// reported as indexed whose maps are not rendered; healed again by later tail indexing) shows
+	// up in too many schedule-dependent shapes for an after-the-fact signature to be both narrow and
+	// reliable. Counted as excluded_known; the white-box unit keeps drawing history limits (its gate
+	// is an exact state test). The same draws are made either way, so replays stay valid.
+	drawHistory := func() uint64 {
+		h := drawHistoryRaw()
+		if h != 0 && vs.Known("TestVerifC40Queries", c40ClassTailPartial) {
+			st.Excluded()
+			return 1 << 20
+		}
+		return h
 	}
 	w.start(drawHistory(), rapid.IntRange(0, 19).Draw(rt, "disabled") == 0)
 	if rapid.Bool().Draw(rt, "queryBeforeIndexed") {
